@@ -384,6 +384,13 @@ fn xor(lhs: &[u8], rhs: &[u8]) -> Result<Vec<u8>, XorLengthMismatch> {
 }
 
 fn generate_nonce() -> [u8; 32] {
+    #[cfg(fe2o3_amqp_verif)]
+    {
+        let mut nonce = [0u8; 32];
+        if crate::verif::entropy(&mut nonce) {
+            return nonce;
+        }
+    }
     rand::rng().random()
 }
 
